@@ -4,8 +4,9 @@
 
   The model describes the code *with the proposed fixes applied* (proposed_fixes/C10-*.diff):
   `from_bipartite_graph` orients an undirected edge by the `bipartite` flag, `to_simplicial_complex`
-  copies the network attributes and accepts a directed source, `from_bipartite_edgelist([])` is the empty
-  hypergraph, `add_edges_from` treats a set as a member set whatever its first element is.
+  accepts a directed source (and copies the network attributes — already fixed in /repo),
+  `from_bipartite_edgelist([])` is the empty hypergraph, `add_edges_from` treats a set as a member set
+  whatever its first element is.
 
   External libraries appear as the pure functions they are documented to be: numpy/scipy (`coo_array`:
   the row-major list of non-zero coordinates), networkx (`G.nodes(data=True)`: vertices in insertion
